@@ -188,6 +188,236 @@ def _flip_some(rng, sc, p=0.25):
     return synth.Scenario(sc.ref, sc.variants, list(sc.samples), haps)
 
 
+def write_bam_rg(sc, reads, path, rg_per_sample=None, rng=None, unmapped=0):
+    """Like synth.write_bam, but every sample may own several read groups (ID = <sample>.<k>, SM = sample,
+    header order shuffled) and each read picks one of its sample's groups (key 'rg' is stored on the read)."""
+    import pysam
+    samples = []
+    for s in list(sc.samples) + [r["sample"] for r in reads]:
+        if s not in samples:
+            samples.append(s)
+    rg_per_sample = rg_per_sample or {}
+    rgs = []
+    for s in samples:
+        k = rg_per_sample.get(s, 1)
+        rgs += [(s if k == 1 else f"{s}.{i}", s) for i in range(k)]
+    if rng is not None:
+        rng.shuffle(rgs)
+    by_sample = {}
+    for rid, sm in rgs:
+        by_sample.setdefault(sm, []).append(rid)
+    header = {"HD": {"VN": "1.6", "SO": "coordinate"}, "SQ": [{"SN": c, "LN": len(sc.ref[c])} for c in sc.chroms],
+              "RG": [{"ID": rid, "SM": sm} for rid, sm in rgs]}
+    opmap = {"M": 0, "I": 1, "D": 2, "N": 3, "S": 4, "H": 5, "P": 6, "=": 7, "X": 8}
+    tid = {c: i for i, c in enumerate(sc.chroms)}
+    rs = sorted(reads, key=lambda r: (tid[r["chrom"]], r["start"]))
+    with pysam.AlignmentFile(path, "wb", header=header) as out:
+        for r in rs:
+            if "rg" not in r:
+                r["rg"] = rng.choice(by_sample[r["sample"]]) if rng is not None else by_sample[r["sample"]][0]
+            a = pysam.AlignedSegment(out.header)
+            a.query_name = r["name"]
+            a.query_sequence = r["seq"]
+            a.flag = r.get("flag", 0)
+            a.reference_id = tid[r["chrom"]]
+            a.reference_start = r["start"]
+            a.mapping_quality = r.get("mapq", 60)
+            a.cigartuples = [(opmap[o], n) for o, n in r["cigar"]]
+            q = r.get("qual", 30)
+            a.query_qualities = pysam.qualitystring_to_array(chr(33 + q) * len(r["seq"])) if isinstance(q, int) else q
+            if "mate_start" in r:
+                a.next_reference_id = tid[r["chrom"]]
+                a.next_reference_start = r["mate_start"]
+            a.set_tags([("RG", r["rg"])] + list(r.get("tags", [])))
+            out.write(a)
+        for k in range(unmapped):
+            a = pysam.AlignedSegment(out.header)
+            a.query_name = f"unmapped{k}"
+            a.query_sequence = "ACGT" * 10
+            a.flag = 4
+            a.query_qualities = pysam.qualitystring_to_array("I" * 40)
+            a.set_tags([("RG", rgs[k % len(rgs)][0])])
+            out.write(a)
+    pysam.index(path)
+    return path
+
+
+def special_alignments(rng, sc, sample, chrom, n):
+    """supplementary (split) alignments, a secondary and a duplicate-flagged alignment of `sample`"""
+    out = []
+    pairs = synth.simulate_reads(rng, sc, sample, chrom, n, len_range=(50, 120), paired_fraction=1.0,
+                                 name_prefix=f"{sample}_{chrom}_sup")
+    by = {}
+    for r in pairs:
+        by.setdefault(r["name"], []).append(r)
+    for nm, rs in by.items():
+        if len(rs) != 2:
+            continue
+        a, b = sorted(rs, key=lambda r: r["start"])
+        seq = a["seq"] + b["seq"]
+        out.append(dict(a, seq=seq, cigar=list(a["cigar"]) + [("S", len(b["seq"]))], flag=0, qual=30))
+        out[-1].pop("mate_start", None)
+        sup = dict(b, seq=seq, cigar=[("S", len(a["seq"]))] + list(b["cigar"]), flag=0x800, qual=30)
+        sup.pop("mate_start", None)
+        out.append(sup)
+    extra = synth.simulate_reads(rng, sc, sample, chrom, 2, len_range=(60, 150), name_prefix=f"{sample}_{chrom}_flag")
+    for r, fl in zip(extra, (0x100, 0x400)):
+        r["flag"] = fl
+    return out + extra
+
+
+def option_jobs(rng, d, sc, f, names, trios, one, ph, feat):
+    """Jobs that walk through the option space of every subcommand: sample / chromosome subsets (in any order),
+    --ignore-read-groups, algorithms, tags, several input files, compressed output, regions, extra outputs."""
+    V, B, T = "text", "bam", "text"
+    jobs = []
+    R = ["--reference", f["ref"]]
+    chroms = list(sc.chroms)
+    # auxiliary files
+    L = max(len(x) for x in sc.ref.values())
+    f["genmap"] = os.path.join(d, "genetic.map")
+    with open(f["genmap"], "w") as fh:
+        fh.write("position COMBINED_rate(cM/Mb) Genetic_Map(cM)\n")
+        cm = 0.0
+        for pos in range(1, L + 50, 50):
+            cm += rng.choice([0.0, 0.01, 0.5])
+            fh.write(f"{pos} {rng.choice([0.5, 1.0, 3.0])} {cm}\n")
+    f["chrlen"] = os.path.join(d, "chr.lengths")
+    with open(f["chrlen"], "w") as fh:
+        for c in sorted(chroms, key=lambda x: rng.random()):
+            fh.write(f"{c}\t{len(sc.ref[c])}\n")
+    # phased VCF that lacks the last chromosome entirely (header contig and records): haplotag --skip-missing-contigs
+    sub = synth.Scenario({c: sc.ref[c] for c in chroms[:-1]}, {c: sc.variants[c] for c in chroms[:-1]}, list(sc.samples),
+                         {s: {c: sc.haps[s][c] for c in chroms[:-1]} for s in sc.samples})
+    f["phased_sub_gz"] = _tabix(synth.write_vcf(sub, os.path.join(d, "phased_sub.vcf"),
+                                               phased={s: {c: ph[s][c] for c in chroms[:-1]} for s in sc.samples}))
+    f["unphased_gz"] = _tabix(f["unphased"])
+
+    def some_samples(k=None):
+        k = k or rng.randint(1, min(3, len(names)))
+        return rng.sample(names, k)         # arbitrary order on the command line
+
+    def sample_args(ss):
+        out = []
+        for x in ss:
+            out += ["--sample", x]
+        return out
+    # ---- phase
+    for k in range(3):
+        alg = "whatshap" if k == 0 else rng.choice(["whatshap", "heuristic", "hapchat"])
+        opts = ["--algorithm", alg, "--tag", rng.choice(["PS", "HP"])]
+        if rng.random() < 0.4:
+            opts.append("--merge-reads")
+        if rng.random() < 0.3:
+            opts.append("--only-snvs")
+        if rng.random() < 0.5:
+            opts += sample_args(some_samples())
+        if rng.random() < 0.4:
+            opts += ["--chromosome", rng.choice(chroms)]
+        if rng.random() < 0.3 and alg != "hapchat":
+            opts.append("--distrust-genotypes")
+            if rng.random() < 0.5:
+                opts.append("--include-homozygous")
+        if alg != "hapchat" and (rng.random() < 0.5 or k == 0):
+            opts += ["--ped", f["ped"]]
+            opts += [["--genmap", f["genmap"]], ["--no-genetic-haplotyping"], [], ["--use-ped-samples"]][
+                0 if k == 0 else rng.randrange(4)]
+        ext = "vcf.gz" if k == 0 else rng.choice(["vcf", "vcf", "vcf.gz"])
+        jobs.append(Job(f"phase-opts{k}", "phase", opts + R + ["-o", "{out}/out." + ext, "--output-read-list",
+                                                               "{out}/readlist.tsv", f["unphased"], f["bam"]],
+                        {"vcf": ("out." + ext, V), "read-list": ("readlist.tsv", T)},
+                        feat=dict(feat, options=" ".join(opts), out_ext=ext)))
+    s1 = rng.choice(names)
+    jobs.append(Job("phase-ignore-read-groups", "phase", ["--ignore-read-groups", "--sample", s1] + R +
+                    ["-o", "{out}/out.vcf", f["unphased"], f["bam"]], {"vcf": ("out.vcf", V)},
+                    feat=dict(feat, options="--ignore-read-groups --sample")))
+    jobs.append(Job("phase-two-bams", "phase", R + ["-o", "{out}/out.vcf", "--output-read-list", "{out}/readlist.tsv",
+                                                    f["unphased"], f["bam_b"], f["bam_a"]],
+                    {"vcf": ("out.vcf", V), "read-list": ("readlist.tsv", T)}, feat=dict(feat, input_files=2)))
+    jobs.append(Job("phase-bam-and-vcf-input", "phase", R + ["-o", "{out}/out.vcf", f["unphased"], f["bam_a"], f["phased2"],
+                                                             f["bam_b"]],
+                    {"vcf": ("out.vcf", V)}, feat=dict(feat, input_files=3, phased_vcf_input=True)))
+    # ---- genotype
+    for k in range(2):
+        opts = []
+        if k == 1 or (k > 1 and rng.random() < 0.5):
+            opts.append("--no-priors")
+        if rng.random() < 0.4:
+            opts.append("--only-snvs")
+        if rng.random() < 0.5:
+            opts += sample_args(some_samples())
+        if rng.random() < 0.4:
+            opts += ["--chromosome", rng.choice(chroms)]
+        if rng.random() < 0.5:
+            opts += ["--ped", f["ped"]] + rng.choice([[], ["--use-ped-samples"], ["--genmap", f["genmap"]]])
+        outs = {"vcf": ("out.vcf", V)}
+        if "--no-priors" not in opts:
+            opts += ["--prioroutput", "{out}/prior.vcf"]
+            outs["prior-vcf"] = ("prior.vcf", V)
+        jobs.append(Job(f"genotype-opts{k}", "genotype", opts + R + ["-o", "{out}/out.vcf", f["unphased"], f["bam"]], outs,
+                        feat=dict(feat, options=" ".join(o for o in opts if not o.startswith("{")))))
+    jobs.append(Job("genotype-two-bams", "genotype", R + ["-o", "{out}/out.vcf", f["unphased"], f["bam_b"], f["bam_a"]],
+                    {"vcf": ("out.vcf", V)}, feat=dict(feat, input_files=2)))
+    # ---- haplotag
+    hl = {"bam": ("out.bam", B), "haplotag-list": ("list.tsv", T)}
+    hbase = R + ["-o", "{out}/out.bam", "--output-haplotag-list", "{out}/list.tsv"]
+    regs = []
+    for c in sorted(chroms, key=lambda x: rng.random())[:2]:
+        lo = rng.randint(1, len(sc.ref[c]) // 2)
+        regs += ["--regions", rng.choice([c, f"{c}:{lo}", f"{c}:{lo}-{lo + rng.randint(50, 300)}"])]
+    jobs.append(Job("haplotag-regions", "haplotag", regs + hbase + [f["phased_gz"], f["bam"]], dict(hl),
+                    dims=("output_threads",), feat=dict(feat, bx=True, options="--regions x2")))
+    jobs.append(Job("haplotag-samples", "haplotag", sample_args(some_samples(2)) + ["--tag-supplementary"] + hbase +
+                    [f["phased_gz"], f["bam"]], dict(hl), dims=("output_threads",),
+                    feat=dict(feat, bx=True, options="--sample x2 --tag-supplementary")))
+    jobs.append(Job("haplotag-ignore-read-groups", "haplotag", ["--ignore-read-groups", "--sample", s1] + hbase +
+                    [f["phased_gz"], f["bam"]], dict(hl), dims=("output_threads",),
+                    feat=dict(feat, bx=True, nsamples=1, options="--ignore-read-groups --sample")))
+    jobs.append(Job("haplotag-skip-missing-contigs", "haplotag", ["--skip-missing-contigs"] + hbase +
+                    [f["phased_sub_gz"], f["bam"]], dict(hl), dims=("output_threads",),
+                    feat=dict(feat, bx=True, options="--skip-missing-contigs")))
+    # ---- haplotagphase
+    hopts = rng.choice([["--only-indels"], ["--no-mav"], ["--chromosome", rng.choice(chroms)]])
+    jobs.append(Job("haplotagphase-opts", "haplotagphase", hopts + R + ["-o", "{out}/out.vcf", f["partial_gz"], f["tagged"]],
+                    {"vcf": ("out.vcf", V)}, feat=dict(feat, options=" ".join(hopts))))
+    # ---- stats / compare / unphase / split
+    jobs.append(Job("stats-first-sample", "stats", ["--tsv", "{out}/stats.tsv", "--block-list", "{out}/blocks.tsv",
+                                                    "--chr-lengths", f["chrlen"], "--chromosome", rng.choice(chroms),
+                                                    f["phased"]],
+                    {"tsv": ("stats.tsv", T), "block-list": ("blocks.tsv", T)},
+                    feat=dict(feat, options="--chr-lengths --chromosome (no --sample)")))
+    jobs.append(Job("compare-two-named", "compare", ["--sample", rng.choice(names), "--names", "truth,other", "--tsv-pairwise",
+                                                     "{out}/pair.tsv", "--longest-block-tsv", "{out}/longest.tsv",
+                                                     "--switch-error-bed", "{out}/switch.bed", f["phased"], f["phased3"]],
+                    {"tsv-pairwise": ("pair.tsv", T), "longest-block-tsv": ("longest.tsv", T),
+                     "switch-error-bed": ("switch.bed", T)}, feat=dict(feat, options="--names, 2 files")))
+    jobs.append(Job("unphase-gz", "unphase", [f["phased_gz"]], {"vcf": ("stdout", V)}, feat=dict(feat, options="gz input")))
+    # FASTQ (gzip) input and output, 2-column list
+    import gzip
+    f["one_fq"] = os.path.join(d, "one.fastq.gz")
+    two = os.path.join(d, "haplotags2.tsv")
+    names_in_bam = []
+    with gzip.open(f["one_fq"], "wt") as fh:
+        import pysam
+        seenq = set()
+        with pysam.AlignmentFile(f["one_bam"]) as af:
+            for a in af:
+                if a.is_secondary or a.is_supplementary or a.query_name in seenq:
+                    continue
+                seenq.add(a.query_name)
+                fh.write(f"@{a.query_name}\n{a.query_sequence}\n+\n{'I' * len(a.query_sequence)}\n")
+    with open(two, "w") as fh:
+        for line in open(f["list"]):
+            if not line.startswith("#"):
+                fh.write("\t".join(line.split("\t")[:2]) + "\n")
+    jobs.append(Job("split-fastq-gz-2col", "split", ["--output-h1", "{out}/h1.fastq.gz", "--output-h2", "{out}/h2.fastq.gz",
+                                                     "--output-untagged", "{out}/untagged.fastq.gz",
+                                                     "--read-lengths-histogram", "{out}/hist.tsv", f["one_fq"], two],
+                    {"h1": ("h1.fastq.gz", T), "h2": ("h2.fastq.gz", T), "untagged": ("untagged.fastq.gz", T),
+                     "histogram": ("hist.tsv", T)}, feat=dict(feat, options="fastq.gz, 2-column list")))
+    return jobs
+
+
 def build_diploid(rng, d, params):
     """Multi-sample (trio + optional unrelated samples), several chromosomes, reads with BX barcodes
     shared across samples, phased/unphased/noisy VCFs, PED, tagged BAM + haplotag list."""
@@ -202,8 +432,12 @@ def build_diploid(rng, d, params):
                              kinds=("snv", "snv", "ins", "del", "mnp"), het_fraction=0.75,
                              sample_names=names, chrom_names=chroms)
     ch, fa, mo = names[:3]
-    for c in sc.chroms:
-        sc.haps[ch][c], _ = synth.inherit(rng, sc.haps[fa][c], sc.haps[mo][c], recomb_prob=0.1)
+    trios = [(ch, fa, mo)]
+    if params.get("second_trio") and len(names) >= 6:
+        trios.append(tuple(names[3:6]))         # a second family in the same PED / VCF / BAM
+    for tch, tfa, tmo in trios:
+        for c in sc.chroms:
+            sc.haps[tch][c], _ = synth.inherit(rng, sc.haps[tfa][c], sc.haps[tmo][c], recomb_prob=0.1)
     f = {}
     f["ref"] = synth.write_fasta(sc, os.path.join(d, "ref.fa"))
     f["unphased"] = synth.write_vcf(sc, os.path.join(d, "unphased.vcf"))
@@ -233,7 +467,9 @@ def build_diploid(rng, d, params):
     part = {s: {c: {i: ps for i, ps in ph[s][c].items() if rng.random() < 0.5} for c in sc.chroms} for s in sc.samples}
     f["partial"] = synth.write_vcf(sc, os.path.join(d, "partial.vcf"), phased=part)
     f["partial_gz"] = _tabix(f["partial"])
-    f["ped"] = synth.write_ped(os.path.join(d, "family.ped"), [(ch, fa, mo)])
+    ped_lines = list(trios)
+    rng.shuffle(ped_lines)
+    f["ped"] = synth.write_ped(os.path.join(d, "family.ped"), ped_lines)
     # reads: BX barcodes from a small pool shared by all samples; some reads cover no variant
     reads = []
     barcodes = [f"BC{k:02d}-1" for k in range(rng.randint(2, 5))]
@@ -248,7 +484,16 @@ def build_diploid(rng, d, params):
                 if rng.random() < 0.75:
                     r["tags"] = [("BX", rng.choice(barcodes))]
             reads += rs
-    f["bam"] = synth.write_bam(sc, reads, os.path.join(d, "reads.bam"))
+            if params.get("special_alignments", True) and rng.random() < 0.6:
+                reads += special_alignments(rng, sc, s, c, 2)
+    rgn = {s: rng.choice([1, 2, 3]) for s in names} if params.get("multi_rg", True) else {}
+    f["bam"] = write_bam_rg(sc, reads, os.path.join(d, "reads.bam"), rgn, rng, unmapped=rng.randint(0, 3))
+    # the same alignments spread over two files (different source ids inside whatshap)
+    half = [[], []]
+    for r in reads:
+        half[rng.randrange(2)].append(r)
+    f["bam_a"] = write_bam_rg(sc, half[0], os.path.join(d, "reads_a.bam"), rgn, None)
+    f["bam_b"] = write_bam_rg(sc, half[1], os.path.join(d, "reads_b.bam"), rgn, None)
     # tagged BAM (HP/PS from the truth, as haplotag would write them) and the haplotag list
     tagged = []
     lines = ["#readname\thaplotype\tphaseset\tchromosome"]
@@ -264,17 +509,20 @@ def build_diploid(rng, d, params):
             t["tags"] = list(r.get("tags", [])) + [("HP", r["hap"] + 1), ("PC", 30 * len(cov)), ("PS", ps)]
             hapname, psname = f"H{r['hap'] + 1}", str(ps)
         tagged.append(t)
-        if s == one and (r["name"], c) not in seen and not r.get("flag", 0) & 0x80:
+        if s == one and (r["name"], c) not in seen and not r.get("flag", 0) & (0x80 | 0x100 | 0x800):
             seen.add((r["name"], c))
             lines.append(f"{r['name']}\t{hapname}\t{psname}\t{c}")
-    f["tagged"] = synth.write_bam(sc, tagged, os.path.join(d, "tagged.bam"))
-    f["one_bam"] = synth.write_bam(_sub_scenario(sc, [one]), [r for r in reads if r["sample"] == one],
-                                   os.path.join(d, "one.bam"))
+    f["tagged"] = write_bam_rg(sc, tagged, os.path.join(d, "tagged.bam"), rgn, None)
+    f["one_bam"] = write_bam_rg(_sub_scenario(sc, [one]), [r for r in reads if r["sample"] == one],
+                                os.path.join(d, "one.bam"), rgn, None)
     f["list"] = os.path.join(d, "haplotags.tsv")
     with open(f["list"], "w") as fh:
         fh.write("\n".join(lines) + "\n")
 
-    feat = dict(nsamples=len(names), nchrom=nchrom)
+    feat = dict(nsamples=len(names), nchrom=nchrom, families=len(trios), singletons=len(names) - 3 * len(trios),
+                rg_per_sample_max=max(rgn.values()) if rgn else 1, deep=bool(params.get("deep")),
+                special_alignments=sum(1 for r in reads if r.get("flag", 0) & (0x800 | 0x100 | 0x400)),
+                paired=sum(1 for r in reads if r.get("flag", 0) & 0x1))
     V, B, T = "text", "bam", "text"
     jobs = [
         Job("phase", "phase", ["--reference", f["ref"], "-o", "{out}/out.vcf", "--output-read-list", "{out}/readlist.tsv",
@@ -322,6 +570,10 @@ def build_diploid(rng, d, params):
             feat=feat),
         Job("unphase", "unphase", [f["phased"]], {"vcf": ("stdout", V)}, feat=feat),
     ]
+    walk = option_jobs(rng, d, sc, f, names, trios, one, ph, feat)
+    for j in walk:
+        j.feat = dict(j.feat, walk=True)
+    jobs += walk
     # every job family additionally gets options that move a divisor / threshold / cutoff (chosen per scenario)
     sweeps = {
         "phase": [["--internal-downsampling", [2, 3, 5, 7, 15]], ["--mapping-quality", [0, 20, 60]]],
@@ -342,7 +594,7 @@ def build_diploid(rng, d, params):
         if j.name == "split" and rng.random() < 0.4:
             extra.append("--only-largest-block")
         j.args = extra + j.args
-        j.feat = dict(j.feat, options=" ".join(extra))
+        j.feat = dict(j.feat, options=(j.feat.get("options", "") + " " + " ".join(extra)).strip())
     return jobs
 
 
@@ -415,6 +667,38 @@ def build_polyploid(rng, d, params):
         ovl = str(rng.choice([2, 3]))
         jobs.append(Job("polyphase-B0", "polyphase", ["-B", sens, "--min-overlap", ovl] + args,
                         {"vcf": ("out.vcf", "text")}, dims=("threads",), feat=dict(feat, options=f"-B {sens} --min-overlap {ovl}")))
+    # truth phasing of the polyploid samples: haplotag --ploidy, stats, compare --ploidy on it
+    plines, plines2 = synth.vcf_header(sc), synth.vcf_header(sc)
+    for i, v in enumerate(vs):
+        ps = [vs[isl[0]].pos + 1 for isl in islands if isl[0] <= i < isl[1]][0]
+        calls = ["|".join(str(a) for a in haps[s][i]) + f":{ps}" for s in names]
+        calls2 = ["|".join(str(a) for a in (haps[s][i][1:] + haps[s][i][:1] if i % 5 == 0 else haps[s][i])) + f":{vs[0].pos + 1}"
+                  for s in names]
+        plines.append(f"{c}\t{v.pos + 1}\t.\t{v.ref}\t{v.alt}\t.\tPASS\t.\tGT:PS\t" + "\t".join(calls))
+        plines2.append(f"{c}\t{v.pos + 1}\t.\t{v.ref}\t{v.alt}\t.\tPASS\t.\tGT:PS\t" + "\t".join(calls2))
+    pv, pv2 = os.path.join(d, "phased.vcf"), os.path.join(d, "phased2.vcf")
+    for path, ls in ((pv, plines), (pv2, plines2)):
+        with open(path, "w") as fh:
+            fh.write("\n".join(ls) + "\n")
+    pgz = _tabix(pv)
+    ref = os.path.join(d, "ref.fa")
+    smp = names[rng.randrange(len(names))]
+    P = str(ploidy)
+    jobs += [
+        Job("haplotag-polyploid", "haplotag", ["--ploidy", P, "--reference", ref, "-o", "{out}/out.bam",
+                                               "--output-haplotag-list", "{out}/list.tsv", pgz, bam],
+            {"bam": ("out.bam", "bam"), "haplotag-list": ("list.tsv", "text")}, dims=("output_threads",),
+            feat=dict(feat, options="--ploidy " + P)),
+        Job("compare-polyploid", "compare", ["--ploidy", P, "--sample", smp, "--tsv-pairwise", "{out}/pair.tsv", pv, pv2],
+            {"tsv-pairwise": ("pair.tsv", "text")}, feat=dict(feat, options="--ploidy " + P)),
+        Job("stats-polyploid", "stats", ["--sample", smp, "--tsv", "{out}/stats.tsv", "--block-list", "{out}/blocks.tsv", pv],
+            {"tsv": ("stats.tsv", "text"), "block-list": ("blocks.tsv", "text")}, feat=feat),
+        Job("polyphase-opts", "polyphase",
+            ["--ploidy", P, "--reference", ref, "-o", "{out}/out.vcf", "--include-haploid-sets", "--use-prephasing",
+             "--sample", smp] + rng.choice([[], ["--distrust-genotypes"], ["--only-snvs"]]) + [pv2, bam],
+            {"vcf": ("out.vcf", "text")}, dims=("threads",),
+            feat=dict(feat, options="--include-haploid-sets --use-prephasing --sample")),
+    ]
     return jobs
 
 
@@ -746,7 +1030,89 @@ def build_block_ties(rng, d, params):
     return jobs
 
 
-BUILDERS = {"split-ties": build_split_ties, "block-ties": build_block_ties, "ped-coverage": build_ped_coverage, "ped-changes": build_ped_changes, "diploid": build_diploid, "polyploid": build_polyploid, "linked-stress": build_linked_stress,
+def build_misc(rng, d, params):
+    """The remaining VCF writers: find_snv_candidates (BAM + reference -> VCF), hapcut2vcf (HapCUT blocks -> VCF),
+    polyphasegenetic (polyploid cross: two parents + progeny with allele depths)."""
+    os.makedirs(d, exist_ok=True)
+    jobs = []
+    # --- find_snv_candidates on noisy reads over two chromosomes
+    sc = synth.make_scenario(rng, nchrom=2, nsamples=1, nvars=8, kinds=("snv",), het_fraction=0.8,
+                             chrom_names=[f"chr{x}" for x in rng.sample(["A", "B", "7", "X"], 2)])
+    ref = synth.write_fasta(sc, os.path.join(d, "ref.fa"))
+    reads = []
+    for c in sc.chroms:
+        reads += noisy_reads(rng, synth.simulate_reads(rng, sc, "S1", c, 40, len_range=(80, 250)), error_rate=0.04)
+    bam = write_bam_rg(sc, reads, os.path.join(d, "reads.bam"), {"S1": 2}, rng)
+    for k, opts in enumerate(([], ["--minabs", "2", "--minrel", "0.1", "--multi-allelics"],
+                              [rng.choice(["--pacbio", "--nanopore", "--illumina"]), "--chromosome", sc.chroms[-1]])):
+        jobs.append(Job(f"find-snv-candidates{k}", "find_snv_candidates", opts + ["-o", "{out}/out.vcf", ref, bam],
+                        {"vcf": ("out.vcf", "text")}, feat=dict(nsamples=1, options=" ".join(opts))))
+    # --- hapcut2vcf
+    vcf = synth.write_vcf(sc, os.path.join(d, "in.vcf"))
+    hc = os.path.join(d, "hapcut.txt")
+    with open(hc, "w") as fh:
+        for c in sc.chroms:
+            het = [(i, v) for i, v in enumerate(sc.variants[c]) if sc.haps["S1"][c][i][0] != sc.haps["S1"][c][i][1]]
+            cut = rng.randint(1, max(1, len(het) - 1))
+            for block in (het[:cut], het[cut:]):
+                if len(block) < 2:
+                    continue
+                fh.write(f"BLOCK: offset: {block[0][0] + 1} len: {len(block)} phased: {len(block)} SPAN: "
+                         f"{block[-1][1].pos - block[0][1].pos} MECscore 1.00 fragments {len(block)}\n")
+                for i, v in block:
+                    a, b = sc.haps["S1"][c][i]
+                    fh.write(f"{i + 1}\t{a}\t{b}\t{c}\t{v.pos + 1}\t{v.ref}\t{v.alt}\t0/1\t5,3:-32.9,-30.3,-35.5:-2.6:0.9\n")
+                fh.write("********\n")
+    jobs.append(Job("hapcut2vcf", "hapcut2vcf", ["-o", "{out}/out.vcf", vcf, hc], {"vcf": ("out.vcf", "text")},
+                    feat=dict(nsamples=1)))
+    # --- polyphasegenetic: tetraploid cross, simplex x nulliplex markers
+    ploidy, nvar, nprog = 4, params.get("pg_vars", 24), params.get("pg_progeny", 12)
+    used = set()
+    parents = [_rand_name(rng, used) for _ in range(2)]
+    prog = [_rand_name(rng, used) for _ in range(nprog)]
+    hap = {p: [None] * nvar for p in parents}
+    for i in range(nvar):
+        a, b = rng.sample(parents, 2)
+        hap[a][i] = [0] * ploidy
+        hap[a][i][rng.randrange(ploidy)] = 1
+        hap[b][i] = [0] * ploidy
+        if rng.random() < 0.2:
+            hap[b][i][rng.randrange(ploidy)] = 1
+    ph = {}
+    for x in prog:
+        sel = {p: rng.sample(range(ploidy), 2) for p in parents}
+        ph[x] = [[hap[p][i][h] for p in parents for h in sel[p]] for i in range(nvar)]
+    cols = parents + prog
+    rng.shuffle(cols)
+    lines = ["##fileformat=VCFv4.2", "##contig=<ID=chr1,length=100000>",
+             '##FORMAT=<ID=GT,Number=1,Type=String,Description="Genotype">',
+             '##FORMAT=<ID=AD,Number=R,Type=Integer,Description="Allelic depths">',
+             "#CHROM\tPOS\tID\tREF\tALT\tQUAL\tFILTER\tINFO\tFORMAT\t" + "\t".join(cols)]
+    for i in range(nvar):
+        calls = []
+        for x in cols:
+            al = hap[x][i] if x in hap else ph[x][i]
+            dd = sum(al)
+            depth = rng.choice([8, 10, 12])
+            calls.append("/".join(str(a) for a in sorted(al)) + f":{(ploidy - dd) * depth},{dd * depth}")
+        lines.append(f"chr1\t{100 + 50 * i}\t.\tA\tC\t.\tPASS\t.\tGT:AD\t" + "\t".join(calls))
+    pgv = os.path.join(d, "cross.vcf")
+    with open(pgv, "w") as fh:
+        fh.write("\n".join(lines) + "\n")
+    pgp = os.path.join(d, "cross.ped")
+    order = list(prog)
+    rng.shuffle(order)
+    with open(pgp, "w") as fh:
+        for x in order:
+            pa, pb = (parents if rng.random() < 0.5 else parents[::-1])
+            fh.write(f"{parents[0]} {parents[1]} {x}\n")
+    for k, opts in enumerate(([], ["--tag", "HP", "--scoring-window", "100"], ["--sample", parents[1], "--distrust-genotypes"])):
+        jobs.append(Job(f"polyphasegenetic{k}", "polyphasegenetic", ["--ploidy", "4"] + opts + ["-o", "{out}/out.vcf", pgv, pgp],
+                        {"vcf": ("out.vcf", "text")}, feat=dict(nsamples=len(cols), ploidy=4, options=" ".join(opts))))
+    return jobs
+
+
+BUILDERS = {"misc": build_misc, "split-ties": build_split_ties, "block-ties": build_block_ties, "ped-coverage": build_ped_coverage, "ped-changes": build_ped_changes, "diploid": build_diploid, "polyploid": build_polyploid, "linked-stress": build_linked_stress,
             "shared-barcode": build_shared_barcode, "undeclared-info": build_undeclared_info}
 
 
